@@ -62,7 +62,13 @@ fn targeted_list(r: &mut Rng) -> (Vec<String>, gen::Req) {
         let cat = r.below(10);
         let mut line = String::new();
         match cat {
-            0..=2 => line.push_str("@@"),
+            0..=2 => {
+                line.push_str("@@");
+                // `@@...$important` is still an exception
+                if r.chance(1, 5) {
+                    opts.push("important".into());
+                }
+            }
             3 | 4 => opts.push("important".into()),
             _ => {}
         }
